@@ -33,7 +33,7 @@ theorem slice_to_end (b : Bytes) (o : Nat) : slice b o b.length = b.drop o := by
   simp
 
 theorem slice_length_le (b : Bytes) (a e : Nat) (h : e ≤ b.length) : (slice b a e).length = e - a := by
-  simp [slice]; omega
+  simp only [slice, List.length_take, List.length_drop]; omega
 
 theorem slice_append_left (b t : Bytes) (a e : Nat) (h : e ≤ b.length) : slice (b ++ t) a e = slice b a e := by
   unfold slice
@@ -48,7 +48,7 @@ theorem slice_append_to_end (b t : Bytes) (o : Nat) (h : o ≤ b.length) :
   rw [List.drop_append_of_le_length h, List.take_of_length_le]
   simp; omega
 
-theorem slice_slice (v : Bytes) (off len s e : Nat) (hb : off + len ≤ v.length) (he : e ≤ len) :
+theorem slice_slice (v : Bytes) (off len s e : Nat) (he : e ≤ len) :
     slice (slice v off (off + len)) s e = slice v (off + s) (off + e) := by
   unfold slice
   rw [List.drop_take, List.take_take, List.drop_drop]
@@ -176,8 +176,9 @@ theorem byteIntervalPD_ok (h : BHandle) (v : Bytes) (off len : Nat) (hh : BHandl
   apply List.map_congr_left
   intro r hr
   obtain ⟨h1, h2⟩ := valid_bounds r len (hv r hr)
-  simp only [Function.comp, ByteRange.extract, ByteRange.start, ByteRange.stop, hlen]
-  rw [slice_slice v off len _ _ hb h2]
+  simp only [Function.comp, ByteRange.extract, hlen]
+  show slice v (off + r.start len) (off + r.start len + r.length len) = _
+  rw [slice_slice v off len _ _ h2]
   congr 1
   omega
 
